@@ -3,7 +3,7 @@
 # extra checks named in seeded/<id>/also.txt) in a private copy of /verif and a scratch worktree of /repo;
 # writes seeded/RESULTS.json in /verif.  Nothing is applied to /repo itself.
 tier="${1:-quick}"
-base=/tmp/seedrun; rm -rf $base/verif; mkdir -p $base
+base=${SEEDRUN_BASE:-/tmp/seedrun}; rm -rf $base/verif; mkdir -p $base
 git -C /repo worktree remove --force $base/repo 2>/dev/null; git -C /repo worktree prune
 git -C /repo worktree add --detach $base/repo HEAD >/dev/null 2>&1 || exit 3
 rsync -a --exclude .git --exclude replays /verif/ $base/verif/
